@@ -291,6 +291,7 @@ func main() {
 	if dir == "" {
 		run.Assumption("VERIF_C37_ABS not set: no implementation traces were validated in this run")
 	}
+	os.RemoveAll(work) // Finish exits the process: deferred clean-up would not run
 	run.Finish()
 }
 
